@@ -315,6 +315,12 @@ func sparseTermination(c *eng.Ctx, key string, readOffset eng.VM, what string) {
 		return
 	}
 	n := 0
+	type termTest struct {
+		iff   *ssa.If
+		op    token.Token
+		other ssa.Value
+	}
+	var tests []termTest
 	eng.Instrs(fn, func(in ssa.Instruction) {
 		iff, ok := in.(*ssa.If)
 		if !ok {
@@ -338,18 +344,42 @@ func sparseTermination(c *eng.Ctx, key string, readOffset eng.VM, what string) {
 		if !(isOff(bo.X) || isOff(bo.Y)) || !isInt64(bo.X.Type()) {
 			return
 		}
-		// does an edge of this test leave the loop / return?
 		n++
-		switch bo.Op {
-		case token.EQL, token.NEQ:
-			c.Violate("loop termination test in "+fn.Name(), c.Pos(iff), "the loop ends when the offset just read == "+describeOther(bo, isOff)+": on a compacted or trimmed log that exact offset may not exist, so the test never fires (the subscription overruns the requested range or never ends)")
-		default:
-			c.OK("loop termination test in "+fn.Name(), c.Pos(iff), "ordering comparison "+bo.Op.String())
+		other := bo.Y
+		if !isOff(bo.X) {
+			other = bo.X
 		}
+		tests = append(tests, termTest{iff, bo.Op, other})
 	})
+	// an equality test against a target is acceptable only next to an ordering test against the same target
+	for _, t := range tests {
+		switch t.op {
+		case token.EQL, token.NEQ:
+			covered := false
+			for _, o := range tests {
+				if (o.op == token.GTR || o.op == token.GEQ || o.op == token.LSS || o.op == token.LEQ) && sameTarget(o.other, t.other) {
+					covered = true
+				}
+			}
+			if covered {
+				c.OK("loop termination test in "+fn.Name(), c.Pos(t.iff), "equality test backed by an ordering test against the same target: the loop also ends when the exact offset no longer exists")
+			} else {
+				c.Violate("loop termination test in "+fn.Name(), c.Pos(t.iff), "the loop ends only when the offset just read == "+eng.Describe(t.other)+": on a compacted or trimmed log that exact offset may not exist, so the test never fires (the subscription overruns the requested range or never ends)")
+			}
+		default:
+			c.OK("loop termination test in "+fn.Name()+" ("+t.op.String()+")", c.Pos(t.iff), "ordering comparison "+t.op.String())
+		}
+	}
 	if n == 0 {
 		c.Unresolved("offset comparison that terminates the loop in " + key)
 	}
+}
+
+func sameTarget(a, b ssa.Value) bool {
+	if eng.Strip(a) == eng.Strip(b) {
+		return true
+	}
+	return sameRead(a, b)
 }
 
 func describeOther(bo *ssa.BinOp, isOff func(ssa.Value) bool) string {
